@@ -56,7 +56,7 @@ def enabled_candidates():
 
 # ------------------------------------------------------------------------------------------------ topologies
 
-def gen_system(rng, ligand=False, min_res=1, two_atoms=None):
+def gen_system(rng, ligand=False, min_res=1, two_atoms=None, shared_resid=0.0):
     """types: name -> [(resid, resname, [atomnames])]; mols: [(name, count)]"""
     names = rng.sample(["A", "B", "PC", "D"], rng.randint(2, 3))
     types = {}
@@ -69,7 +69,12 @@ def gen_system(rng, ligand=False, min_res=1, two_atoms=None):
             atoms = ATOMNAMES[:natoms]
             if natoms == 3 and rng.random() < 0.2:
                 atoms = ["X", "Y", "X"]            # a repeated atom name inside one residue
-            residues.append((first + r, rng.choice(RESNAMES), atoms))
+            resid, resname = first + r, rng.choice(RESNAMES)
+            if residues and rng.random() < shared_resid and residues[-1][1] != resname:
+                # a co-factor numbered like its neighbour: two residues with one resid, told apart by name
+                resid = residues[-1][0]
+                first -= 1
+            residues.append((resid, resname, atoms))
         types[name] = residues
     if ligand:
         types["L"] = [(1, "RL", ["Z"])]
@@ -369,30 +374,35 @@ def judge_build(ctx, case, answers):
     if impl["ok"]:
         spec_ann = spec["ann"]
         selected = sum(1 for a in spec_ann if a[2] or a[3])
-        for got_a, want_a in zip(impl["ann"], spec_ann):
-            if got_a[2] != want_a[2]:
+        # A deviation from the specification is filed under a KNOWN shape only when the implementation does
+        # exactly what the model of the known behaviour does (last rw line wins / restraints by index); any
+        # other deviation gets its own shape, so a listed finding can never mask a different defect.
+        model_ann = model["ann"] if model["ok"] else None
+        reported = set()
+        for pos, (got_a, want_a) in enumerate(zip(impl["ann"], spec_ann)):
+            if got_a[2] != want_a[2] and "restraint-selection" not in reported:
+                reported.add("restraint-selection")
                 ctx.oracle_fail("restraint-selection", "node %d of molecule %d (%s) carries restraints %s, the build "
                                 "file selects %s; file:\n%s" % (got_a[1], got_a[0], case["mols"][got_a[0]]["name"],
                                                               got_a[2], want_a[2], replay["text"]), replay)
-                break
             if got_a[3] != want_a[3]:
-                shape = "rw-restriction-last-line-wins" if set(got_a[3]) < set(want_a[3]) else "rw-selection"
-                ctx.oracle_fail(shape, "node %d of molecule %d (%s) carries rw_options %s, the build file selects "
-                                "%s; file:\n%s" % (got_a[1], got_a[0], case["mols"][got_a[0]]["name"], got_a[3],
-                                                  want_a[3], replay["text"]), replay)
-                break
+                known = model_ann is not None and got_a[3] == model_ann[pos][3]
+                shape = "rw-restriction-last-line-wins" if known else "rw-selection"
+                if shape not in reported:
+                    reported.add(shape)
+                    ctx.oracle_fail(shape, "node %d of molecule %d (%s) carries rw_options %s, the build file selects "
+                                    "%s; file:\n%s" % (got_a[1], got_a[0], case["mols"][got_a[0]]["name"], got_a[3],
+                                                      want_a[3], replay["text"]), replay)
         if impl["dist"] != sorted(spec["dist"]):
-            extra = [d for d in impl["dist"] if d not in spec["dist"]]
-            shape = "dist-restraint-by-index-ignores-name" if extra and all(d in impl["dist"] for d in spec["dist"]) \
-                else "dist-restraint-selection"
+            known = model["ok"] and impl["dist"] == sorted(model["dist"])
+            shape = "dist-restraint-by-index-ignores-name" if known else "dist-restraint-selection"
             ctx.oracle_fail(shape, "distance restraints applied to (molecule, a, b, line) %s, the build file selects %s "
                             "(molecule names %s); file:\n%s" % (impl["dist"], sorted(spec["dist"]), names_of(case["mols"]),
                                                                 replay["text"]), replay)
         spec_pers = [idxs for _, idxs in spec["pers"]]
         if impl["pers"] != [p for p in spec_pers if p] and impl["pers"] != spec_pers:
-            ctx.oracle_fail("dist-restraint-by-index-ignores-name" if all(set(s) <= set(g) for s, g in
-                                                                           zip(spec_pers, impl["pers"]))
-                            and len(spec_pers) == len(impl["pers"]) else "persistence-selection",
+            known = model["ok"] and impl["pers"] == [idxs for _, idxs in model["pers"]]
+            ctx.oracle_fail("dist-restraint-by-index-ignores-name" if known else "persistence-selection",
                             "persistence batches applied to molecules %s, the build file selects %s (names %s); "
                             "file:\n%s" % (impl["pers"], spec_pers, names_of(case["mols"]), replay["text"]), replay)
         want_carriers = sorted(set([d[0] for d in impl["dist"]] + [i for p in impl["pers"] for i in p]))
@@ -544,9 +554,19 @@ def judge_start(ctx, case, answers):
         ctx.oracle_fail("start-selects-other-node", "-start %s gives %s, the specifications select %s (molecules %s)"
                         % (replay["specs"], impl["start"], spec["start"], case["mols"]), replay)
     elif not valid and impl["ok"]:
-        ctx.oracle_fail("start-name-index-mismatch-accepted", "-start %s is accepted and starts %s although a "
-                        "specification names a molecule name that is not the name of the molecule with the index "
-                        "given (molecules %s)" % (replay["specs"], impl["start"], names_of(case["mols"])), replay)
+        # known shape only if (a) some specification carries an index AND a name that is not that molecule's,
+        # and (b) the implementation does what the model of that known behaviour does
+        names = names_of(case["mols"])
+        mismatch = False
+        for text in replay["specs"]:
+            parsed = py_parse(text)
+            if parsed["ok"] and parsed["spec"][0] is not None and parsed["spec"][1] is not None \
+                    and parsed["spec"][1] < len(names) and names[parsed["spec"][1]] != parsed["spec"][0]:
+                mismatch = True
+        known = mismatch and model["ok"] and model["start"] == impl["start"]
+        ctx.oracle_fail("start-name-index-mismatch-accepted" if known else "start-accepts-invalid-spec",
+                        "-start %s is accepted and starts %s although the specifications are not satisfiable as "
+                        "written (molecules %s)" % (replay["specs"], impl["start"], names_of(case["mols"])), replay)
     ctx.case(json.dumps([replay["system"], replay["specs"]], sort_keys=True),
              sample=dict(specs=replay["specs"], molecules=names_of(case["mols"]), start=impl.get("start"))
              if ctx.rng.random() < 0.03 else None,
@@ -577,7 +597,15 @@ def gen_split(rng, system):
         for p in range(nparts):
             chunk = pool[p::nparts]
             if chunk:
-                parts.append(["N%s%d" % (resname[1:], p), chunk])
+                new_name = "N%s%d" % (resname[1:], p)
+                roll = rng.random()
+                if roll < 0.2:
+                    new_name = resname                     # the old residue keeps its name for one part
+                elif roll < 0.35:
+                    new_name = rng.choice(resnames)        # a name some other residue already carries
+                if new_name in [q[0] for q in parts]:
+                    new_name = "N%s%d" % (resname[1:], p)  # two parts of one name merge by design (notes O-4)
+                parts.append([new_name, chunk])
         strings.append(resname + ":" + ":".join("%s-%s" % (n, ",".join(a)) for n, a in parts))
         defs.append(dict(resname=resname, parts=parts))
     return strings, defs
@@ -623,7 +651,7 @@ def split_exec(work, system, strings, only=None):
 
 
 def split_case(work, rng):
-    system = gen_system(rng, ligand=rng.random() < 0.2)
+    system = gen_system(rng, ligand=rng.random() < 0.2, shared_resid=rng.choice([0.0, 0.0, 0.4]))
     strings, _ = gen_split(rng, system)
     return split_exec(work, system, strings)
 
@@ -752,7 +780,7 @@ def judge_lig(ctx, case, answers):
                        dict(mols=detach["mols"], pos=sorted(detach["pos"])), replay)
         if not spec["holds"]:
             shape = "ligand-round-trip"
-            if spec["why"].startswith("the attached nodes are not the ones"):
+            if spec["why"].startswith("the attached nodes are not the ones") and got == want:
                 # a ligand specification with index AND a name that is not the name of that molecule?
                 names = names_of(case["mols"])
                 for _, lig_text in replay["pairs"]:
@@ -1016,16 +1044,16 @@ def run(ctx):
         replay_inputs(ctx, work, corpus_inputs())
         spec_cases(ctx, rng)
         cases = []
-        for _ in range(ctx.budget(300, 2200)):
+        for _ in range(ctx.budget(200, 2200)):
             cases.append(build_case(work, rng, candidates))
-        for _ in range(ctx.budget(200, 1500)):
+        for _ in range(ctx.budget(120, 1500)):
             cases.append(start_case(work, rng, candidates))
-        for _ in range(ctx.budget(150, 1000)):
+        for _ in range(ctx.budget(100, 1000)):
             cases += split_case(work, rng)
-        for _ in range(ctx.budget(200, 1500)):
+        for _ in range(ctx.budget(120, 1500)):
             cases.append(lig_case(work, rng, candidates))
         run_batch(ctx, cases)
-        for mode, count in (("split", ctx.budget(20, 100)), ("lig", ctx.budget(30, 180)), ("start", ctx.budget(10, 40))):
+        for mode, count in (("split", ctx.budget(12, 100)), ("lig", ctx.budget(20, 180)), ("start", ctx.budget(6, 40))):
             for _ in range(count):
                 e2e_case(ctx, work, rng, mode)
     finally:
